@@ -148,6 +148,28 @@ def gen(rng, n, tier):
             else:
                 dtype, mult = 'f8', 1
                 ue = rng.randint(-2, 2) if tunit != 'seconds' else rng.randint(0, 6)
+        narrow = rng.random() < (0.3 if tier == 'search' else 0.14)
+        tref = None
+        if narrow:
+            # narrow integer coordinate with LARGE values (neighbouring values sum past the dtype's range): int16 heights,
+            # int8/uint16 codes, int32 epoch seconds ("seconds since 1970-01-01", after 2004)
+            dtype = rng.choice(['i1', 'i2', 'i4', 'i4', 'u2'])
+            top = {'i1': 127, 'i2': 32767, 'i4': 2147483647, 'u2': 65535}[dtype]
+            k = rng.randint(1, 3)
+            ue, mult = -k, 2 ** k
+            cap = 8 if dtype == 'i1' else 200
+            raw = [top - rng.randint(0, 3)]
+            for a, b in zip(cs, cs[1:]):
+                raw.append(raw[-1] - max(1, min(cap, b - a)))
+            raw = raw[::-1]
+            cs = [r_ * mult for r_ in raw]
+            es = [cs[0] - mult] + [(a + b) // 2 for a, b in zip(cs, cs[1:])] + [cs[-1] + mult]
+            if rng.random() < 0.85:
+                rep = 'none'
+            front, tunit = 'val2idx', None
+            if dtype == 'i4' and rng.random() < 0.5:
+                front, tunit, tref = 'time2idx', 'seconds', '1970-01-01'
+            mult = 1      # already applied
         if mult > 1:
             cs = [c * mult for c in cs]
             es = [e * mult for e in es]
@@ -179,7 +201,7 @@ def gen(rng, n, tier):
         case = dict(kind='%s-%s-%s-%s-%s%s' % (direction, rep, method, style, dtype, tztag),
                     ue=ue, cs=cs, dtype=dtype, rep=rep, es=(es if rep != 'none' else None), bkey=bkey, method=method,
                     bounds=bounds, clean=clean, left=left, right=right, xs=xs, vshape=vshape, front=front, tunit=tunit,
-                    tzmin=tzmin)
+                    tzmin=tzmin, tref=tref)
         out.append(case)
     return out
 
@@ -301,7 +323,7 @@ def impl(case):
     name = 'time' if case['front'] == 'time2idx' else 'x'
     tunits = None
     if case['front'] == 'time2idx':
-        tunits = '%s since 2000-01-01 00:00:00' % case['tunit']
+        tunits = '%s since %s 00:00:00' % (case['tunit'], case.get('tref') or '2000-01-01')
     f = _mkfile(name, vals, case['dtype'], case['rep'], es, case['bkey'], tunits)
     xs = np.ldexp(np.array(case['xs'], dtype='d'), ue)
     kw = dict(method=case['method'], bounds=case['bounds'], clean=case['clean'])
@@ -312,7 +334,7 @@ def impl(case):
     obs = {}
     if case['front'] == 'time2idx':
         us = TUNITS[case['tunit']]
-        ref = datetime.datetime(2000, 1, 1)
+        ref = datetime.datetime(*[int(v) for v in (case.get('tref') or '2000-01-01').split('-')])
         q = []
         for x in case['xs']:
             micro = Fraction(x) * Fraction(2) ** ue * us
@@ -380,8 +402,24 @@ def _scale(case):
     return 2 if (case['rep'] == 'none' and case['method'] == 'bounds') else 1
 
 
+def _diffs_in_float():
+    """does val2idx form the coordinate differences in float (fixes/C16-val2idx-diff-in-float.patch)?"""
+    try:
+        sts, _ = _val2idx_statements()
+        return sts is not None and "dval = np.diff(dimvals.astype('d')) / 2" in sts and "ddimevals = np.diff(np.asarray(dimevals, dtype='d'))" in sts
+    except Exception:   # noqa
+        return False
+
+
+def _wraps(case):
+    """unsigned coordinate, descending, direction decided from the coordinate itself: np.diff wraps around (known finding
+    C16-unsigned-descending); such cases are judged by the Python oracle only until the source forms the differences in float"""
+    return (not case.get('fl') and str(case.get('dtype', '')).startswith('u') and case['rep'] == 'none'
+            and len(case['cs']) > 1 and case['cs'][0] > case['cs'][-1] and not _diffs_in_float())
+
+
 def coq_term(case, obs):
-    if case.get('fl'):
+    if case.get('fl') or _wraps(case):
         return None
     if case['rep'] == 'none':
         bv = 'NoBounds'
@@ -500,6 +538,12 @@ def py_check(case, obs):
         if exp != got:
             res['f_ok'] = False
             why.append('date2num differs from the exact offset')
+    if _wraps(case):
+        res['region'] = 2
+        if 'raises' in obs and not (case['bounds'] == 'error' and obs.get('raises') == 'ValueError' and 'out of bounds' in obs.get('msg', '')):
+            res['s_ok'] = False
+            res['why'] = 'in-domain lookup raised %s: %s' % (obs.get('raises'), obs.get('msg'))
+            return res
     if 'raises' in obs:
         res['why'] = '; '.join(why)
         return res          # judged by the Coq side (spec_outcome)
@@ -604,7 +648,7 @@ def translate():
             ob('val2idx: bounds path is either interp-truncate or the complete searchsorted block (bounds_by_search)',
                flag or not any(x in sts for x in _SRCH) and not any('searchsorted' in x for x in sts), 'partial / different searchsorted block')
             need = [
-                ("dval = np.diff(dimvals) / 2", 'derive_edges: dval'),
+
                 ("start = dimvals[:1].astype('d')", 'derive_edges: start is a copy'),
                 ("end = dimvals[-1:].astype('d')", 'derive_edges: end is a copy'),
                 ("start -= dval[0]", 'derive_edges: uniform extension'),
@@ -614,7 +658,7 @@ def translate():
                 ("dimevals = np.append(dimbv[:, 0], dimbv[-1, 1])", 'edges_of_bvar: n x 2'),
                 ("idx = np.arange(dimevals.size)", 'fidx_one: idx0 (bounds)'),
                 ("idx = np.arange(dimvals.size)", 'fidx_one: idx0'),
-                ("ddimevals = np.diff(dimevals)", 'direction test'),
+
                 ("dimevals = dimevals[::-1]", 'descending: reverse edges'),
                 ("dimvals = dimvals[::-1]", 'descending: reverse centres'),
                 ("idx = idx[::-1]", 'descending: reverse idx'),
@@ -630,6 +674,10 @@ def translate():
                 ("return outidx", 'result')]
             for st, what in need:
                 ob('val2idx: `%s` (%s)' % (st, what), st in sts)
+            ob('val2idx: dval = half the coordinate differences (derive_edges), formed in the coordinate dtype or in float',
+               "dval = np.diff(dimvals) / 2" in sts or "dval = np.diff(dimvals.astype('d')) / 2" in sts)
+            ob('val2idx: ddimevals = differences of the edges (direction test), formed in their dtype or in float',
+               "ddimevals = np.diff(dimevals)" in sts or "ddimevals = np.diff(np.asarray(dimevals, dtype='d'))" in sts)
             for t, what in [("method not in ('exact', 'nearest', 'bounds')", 'bad_opts'), ("bounds not in ('ignore', 'warn', 'error')", 'bad_opts'),
                             ("clean not in ('none', 'mask')", 'bad_opts'), ("(dval == dval[0]).all()", 'uniform'),
                             ("(ddimevals < 0).all()", 'all_neg first'), ("(ddimevals > 0).all()", 'all_pos'),
